@@ -181,6 +181,31 @@ fn run(ctx: &mut Ctx) {
             }
         }
     }
+    // `go` statements: the spawned closure written inline, bound by a let, bound and shadowed, capturing, bound by a
+    // tuple pattern, spawned twice, spawned inside a loop and inside a branch
+    {
+        let wait = "    while ref_get(done) < N {\n    };\n    let _ = string_println(int32_to_string(ref_get(done)));\n    ()\n}\n";
+        let bodies: [(&str, String, i32); 8] = [
+            ("inline", "fn main() -> unit {\n    let done = ref(0);\n    go || { ref_set(done, ref_get(done) + 1) };\n".into(), 1),
+            ("let-bound", "fn main() -> unit {\n    let done = ref(0);\n    let worker = || { ref_set(done, ref_get(done) + 1) };\n    go worker;\n".into(), 1),
+            ("let-bound-spawned-twice", "fn main() -> unit {\n    let done = ref(0);\n    let worker = || { ref_set(done, ref_get(done) + 1) };\n    go worker;\n    go worker;\n".into(), 2),
+            ("shadowed", "fn main() -> unit {\n    let done = ref(0);\n    let worker = || { ref_set(done, ref_get(done) + 10) };\n    let worker = || { ref_set(done, ref_get(done) + 1) };\n    go worker;\n".into(), 1),
+            ("capturing-a-parameter", "fn spawn(done: Ref[int32], k: int32) -> unit {\n    let job = || { ref_set(done, ref_get(done) + k) };\n    go job;\n    ()\n}\nfn main() -> unit {\n    let done = ref(0);\n    let _ = spawn(done, 1);\n".into(), 1),
+            ("tuple-bound", "fn main() -> unit {\n    let done = ref(0);\n    let (worker, n) = (|| { ref_set(done, ref_get(done) + 1) }, 3);\n    go worker;\n".into(), 1),
+            ("in-a-loop", "fn main() -> unit {\n    let done = ref(0);\n    let worker = || { ref_set(done, ref_get(done) + 1) };\n    let k = ref(0);\n    while ref_get(k) < 2 {\n        go worker;\n        let _ = ref_set(k, ref_get(k) + 1);\n    };\n".into(), 2),
+            ("in-a-branch", "fn main() -> unit {\n    let done = ref(0);\n    let worker = || { ref_set(done, ref_get(done) + 1) };\n    if ref_get(done) == 0 {\n        go worker;\n    } else {\n        ()\n    };\n".into(), 1),
+        ];
+        for (i, (name, head, n)) in bodies.iter().enumerate() {
+            if ctx.mine(41_000 + i as u64) {
+                let src = format!("{}{}", head, wait.replace("N", &n.to_string()));
+                ctx.case(&format!("go-statement/{}", name), |c| {
+                    check_source(c, &format!("go-statement/{}", name), &src);
+                    c.count("go_templates", 1);
+                    c.nontrivial(hash_str(&src));
+                });
+            }
+        }
+    }
     // generated programs (clean lattice)
     let n = tier.pick(800u64, 60_000u64) / ctx.nshards as u64 + 1;
     let opts = DiffOpts { prop: "C02", vet_is_violation: true, budget: 400_000, print: PrintOpts::default() };
